@@ -71,3 +71,18 @@ package symbols
 //@             && !ast.termEq(left, right) && !ast.termEq(right, ast.AnyBound) && !ast.termEq(left, ast.BotBound) && !ast.termEq(right, ast.NameBound)
 //@             && !isBuiltinBase(left as ast.Constant) && !isBuiltinBase(right as ast.Constant)
 //@             ==> (forall c ast.Constant :: nameMember(left as ast.Constant, c) ==> nameMember(right as ast.Constant, c))
+
+// ---- C10: an accepted struct type has well-shaped optional fields -------------------------------------------------
+// Conformance checking indexes both arguments of every fn:opt(...) of a struct type: the well-formedness check lets a
+// struct type pass only if each optional field is an application with exactly two arguments.
+//@ func StructTypeOptionaArgs(tpe)
+//@   trusted
+//@   modifies nothing
+//@ func StructTypeRequiredArgs(tpe)
+//@   trusted
+//@   modifies nothing
+//@ func WellformedType(ctx, expr)
+//@   opt nosafety
+//@   loop 2 invariant forall k int :: 0 <= k && k < rangeindex + 1 ==> optionalArgs[k] is ast.ApplyFn && len((optionalArgs[k] as ast.ApplyFn).Args) == 2
+//@   loop 2 atexit forall k int :: 0 <= k && k < len(optionalArgs) ==> optionalArgs[k] is ast.ApplyFn && len((optionalArgs[k] as ast.ApplyFn).Args) == 2
+//@   guard return in loop 2: err != nil
